@@ -80,13 +80,6 @@ func (a *AttrConditionPlanner) maybeCreateWhere() error {
 			return err
 		}
 		a.sqlConds = append(a.sqlConds, sqlTerm)
-
-		if !strings.HasPrefix(t.Label, "span.") &&
-			!strings.HasPrefix(t.Label, "resource.") &&
-			!strings.HasPrefix(t.Label, ".") &&
-			t.Label != "name" {
-			continue
-		}
 		a.where = append(a.where, sqlTerm)
 	}
 	return nil
